@@ -164,7 +164,8 @@ def err_class(e):
     if isinstance(e, Adt):
         if e.vname == "IoError":
             io = e.fields[0]
-            return "IoError(%s)" % getattr(io, "kind", "?")
+            k = getattr(io, "kind", "?")
+            return "IoError(%s)" % ("injected" if k == "?" else k)
         if e.vname == "SizeMismatch":
             return "SizeMismatch"
         return e.vname
